@@ -82,6 +82,15 @@ def check_url(ctx, m, u, rng, classes):
             hostless = not urlsplit(cu if PROTO_RE.match(cu) else "http://" + cu).hostname
         except ValueError:
             hostless = False
+        if re.match(r"^[a-zA-Z]+//", cu):
+            hostless = False  # 'word//...' is read as a protocol without its colon by the documented pattern: ambiguous, not judged
+        for name, fn2, kw in (("fingerprint_url", m.ural.fingerprint_url, {}), ("fingerprint_url", m.ural.fingerprint_url, {"unsplit": False, "strip_suffix": True}), ("normalize_url", m.ural.normalize_url, {"unsplit": False})):
+            r = call(fn2, u, **kw)
+            ctx.ev()
+            ctx.count("unparseable-through-the-url-level-functions")
+            if isinstance(r, tuple) and len(r) >= 2 and r[0] == "EXC":
+                # the url-level function has no host to report for a string it cannot parse, but it must say so by returning, not by raising
+                ctx.viol("C07:%s:raises-on-a-url-it-cannot-parse" % name, {"fn": name, "url": u, "kwargs": kw}, {"raised": r})
         if hostless:
             ctx.count("hostless-input-judged")
             for name, fn in (("get_normalized_hostname", m.get_normalized_hostname), ("get_fingerprinted_hostname", m.get_fingerprinted_hostname), ("get_hostname", m.ural.get_hostname)):
@@ -255,7 +264,7 @@ DIRECTED_URLS = ["\x00http://example.com", "\x01\x02 http://www.example.com/x", 
                  "git://www.example.com/repo.git", "ssh://fr.example.com/x", "ftp://m.example.co.uk/a/", "wss://www.example.com:443/s", "custom://amp.example.com/x", "rtmp://WWW.Example.COM/live",
                  "http://www.x.co.uk.fr/a", "http://fr.shop.com.au.com/x?b=1", "http://a.com/?url=HTTP://B.com", "http://a.com/?URL=HTTPS%3A%2F%2FWWW.B.ORG%2FX", "HTTP://A.COM/?NEXT=/HOME", "a.fr/login?next=/home",
                  "http://a.com/?u\nrl=http%3A%2F%2Fb.org%2Fp", "http://l.example.com/l.php?u=\r\nhttps%3A%2F%2Fb.org%2Fx", "http://cdn.ampproject\x00.org/c/s/b.com/p", "http://a.com/r?url=ht\ttp://b.org/", "http://www.google.com/u\x85rl?q=http://b.org",
-                 "://www.lemonde.fr/path", ":///x", "://", "http://[::ffff:192.0.2.1]/x", "http://[64:ff9b::192.0.2.33]:8080/a?b=1", "[::ffff:1.2.3.4]:80/x", "http://r.example.net/out?url=http%3A%2F%2F%5B%3A%3Affff%3A192.0.2.1%5D%2Fx",
+                 "://www.lemonde.fr/path", ":///x", "://", "http://www.host.com:99999/", "http://a.com:abc/x", "http://[::1/x", "http://a.com:99999/?url=http%3A%2F%2Fb.org", "http://[::ffff:192.0.2.1]/x", "http://[64:ff9b::192.0.2.33]:8080/a?b=1", "[::ffff:1.2.3.4]:80/x", "http://r.example.net/out?url=http%3A%2F%2F%5B%3A%3Affff%3A192.0.2.1%5D%2Fx",
                  "http://xn--amp--epa.fr/x", "http://straße.de/Straße?ß=ẞ", "straße.de", "http://r.example.net/out?url=http%3A%2F%2Fstra%C3%9Fe.de%2Fx", "http://ΟΔΌΣ.GR/ΟΔΌΣ", "οδός.gr/x", "http://amp-é.fr/x", "httpbin.org/get", "https.example.org/x", "http2.golang.org", "httpd.apache.org/docs?x=1", "ftp.example.org/x", "HTTP.example.org", "www.example.co.uk/page?src=ftp://files.example.org/x", "example.com?x=1", "example.com#f"]
 DIRECTED_HOSTS = ["fr.facebook.com", "fr-FR.facebook.com", "www.lemonde.fr", "m.example.co.uk", "amp-x.example.com", "amp.example.com", "xn--tlrama-bvab.fr", "TÉLÉRAMA.fr", " Example.COM ",
                   "fr.example.com.au", "de.co.uk", "co.uk", "com", "us.fr.example.com", "www.fr.example.com", "fr.www.example.com", "en-us.example.com", "localhost", "1.2.3.4", "forum-m.example.com",
